@@ -76,8 +76,16 @@ def _GenerateConstant(cv: LinearIR.ConstantValue) -> WebAssembly.Instruction:
     t = cv.Type
     if t.IsScalar():
         if isinstance(t, LinearIR.IntegerType):
+            value = cv.Value
+            if t.Unsigned and 2**31 <= value < 2**32:
+                # the immediate of i32.const is signed: same bit pattern
+                value -= 2**32
+            if not -(2**31) <= value < 2**31:
+                raise RuntimeError(
+                    f"The WebAssembly backend cannot translate the constant {cv.Value}: it does not fit into 32 bits"
+                )
             return WebAssembly.Instruction(
-                WebAssembly.opcodes["i32.const"], (cv.Value,)
+                WebAssembly.opcodes["i32.const"], (value,)
             )
         elif isinstance(t, LinearIR.FloatType):
             return WebAssembly.Instruction(
